@@ -107,7 +107,7 @@ def replay_io(cex):
                 back = Molecules.from_dataframe(df)
                 if not np.allclose(back.pos, pos) or not np.allclose(back.rotvec(), m.rotvec(), atol=1e-6) or (with_feat and not back.features.equals(m.features)):
                     bad[f"dataframe-round-trip(n={n},features={with_feat})"] = True
-                for suffix in (".csv", ".pq", ".parquet", ".txt", ""):
+                for suffix in (".csv", ".pq", ".parquet", ".txt", "", ".PQ", ".Parquet", ".parquet.bak", ".csv.parquet"):
                     p = os.path.join(d, f"m{n}{int(with_feat)}{suffix}")
                     try:
                         m.to_file(p)
@@ -115,7 +115,7 @@ def replay_io(cex):
                     except Exception as e:
                         bad[f"to_file/from_file({suffix!r},n={n})"] = repr(e)[:120]
                         continue
-                    tol = 1e-6 if suffix in (".pq", ".parquet") else 2e-4
+                    tol = 1e-6 if suffix in (".pq", ".parquet", ".csv.parquet") else 2e-4
                     ok = len(r) == n and np.allclose(r.pos, pos, atol=tol) and np.allclose(r.rotvec(), m.rotvec(), atol=max(tol, 1e-6))
                     if with_feat:
                         ok = ok and r.features.columns == list(feats) and r.features["i"].to_list() == m.features["i"].to_list() and r.features["s"].to_list() == m.features["s"].to_list() \
